@@ -225,6 +225,41 @@ def router_case(job):
     return out
 
 
+def collision_case(job):
+    """Two different method signatures with the same 4-byte selector (sha512/256 prefix 01c0f79c): a router cannot dispatch both, so the
+    second registration must be refused - by every registration route, in either order."""
+    route, order, version = job
+    from vf.core import use_repo
+    use_repo()
+    import pyteal as pt
+    out = {"job": list(job), "problem": None}
+    names = ["m8916", "m12207"][::order]
+    try:
+        router = pt.Router("r", pt.BareCallActions())
+        for i, nm in enumerate(names):
+            ns = {"pt": pt}
+            exec(compile(f"def {nm if route != 'override' else 'impl' + str(i)}():\n    return pt.Log(pt.Bytes('{nm}'))\n", "<m>", "exec", dont_inherit=True), ns)
+            fn = ns[nm if route != "override" else "impl" + str(i)]
+            try:
+                if route == "handler":
+                    router.add_method_handler(pt.ABIReturnSubroutine(fn), method_config=pt.MethodConfig(no_op=pt.CallConfig.CALL, opt_in=pt.CallConfig.ALL if i else pt.CallConfig.NEVER))
+                elif route == "decorator":
+                    router.method(fn, no_op=pt.CallConfig.CALL)
+                else:
+                    router.add_method_handler(pt.ABIReturnSubroutine(fn), overriding_name=nm, method_config=pt.MethodConfig(no_op=pt.CallConfig.ALL))
+            except pt.TealInputError:
+                if i == 0:
+                    out["problem"] = f"the first registration ({nm}) was refused"
+                return out
+        router.compile_program(version=version)
+        out["problem"] = f"{names[0]}()void and {names[1]}()void have the same selector 01c0f79c and both registrations were accepted: calls to the second can only reach the first"
+    except (pt.TealInputError, pt.TealInternalError, pt.TealCompileError) as e:
+        return out
+    except Exception as e:
+        out["problem"] = f"exception {type(e).__name__}: {str(e)[:160]}"
+    return out
+
+
 def run(report: Report, tier, seed):
     report.trust("spec/exprsym.py (meaning of ==, !=, &&, ||, txn reads over mathematical uint64)", "spec/avm.py",
                  "registration semantics `allowed(config, OnCompletion, create)` written from the documentation", "hashlib sha512/256 for selectors")
@@ -240,6 +275,14 @@ def run(report: Report, tier, seed):
                                   contract="handler H, and only H, runs exactly when the call matches H's registration; every other call is rejected; clear-state runs the given action or rejects; contract lists exactly the registered methods",
                                   bound=f"{len(jobs)} generated routers (seed {seed}; 0..3 methods, bare actions per OnCompletion in every documented handler form (expression with / without its own exit, Subroutine, void ABIReturnSubroutine), arbitrary CallConfigs; plus directed registrations: uniform ALL/CALL/CREATE, the default MethodConfig, each single OnCompletion x CallConfig, uniform bare actions) x all calls (bare / each selector / unknown / short selector) x OnCompletion 0..5 x app id zero / non-zero, versions 6..10",
                                   cases=sum(r["ran"] for r in res), distinct_nontrivial=len(jobs), failures=len(rb)))
+    cj = [(rt, o, v) for rt in ("handler", "decorator", "override") for o in (1, -1) for v in (6, 10)]
+    with ProcessPoolExecutor(max_workers=12) as ex:
+        cr = list(ex.map(collision_case, cj))
+    cbad = [r for r in cr if r["problem"]]
+    report.bounded.append(Bounded(function="Router registration of two signatures with the same selector", contract="the second registration is refused",
+                                  bound="one colliding pair (m8916()void / m12207()void) x 3 registration routes x both orders x versions 6, 10", cases=len(cr), distinct_nontrivial=len(cr), failures=len(cbad)))
+    for b in cbad[:1]:
+        report.violation(Violation(key=f"collision:{b['job'][0]}", what=b["problem"][:400], replay={"input": {"collision": b["job"]}}, confirmed_native=True))
     report.extra["explanation"] = "E x P: guards of all 4 + 1024 configurations proved for all uint64 inputs; B: whole routers on the spec AVM"
     report.settle_refuted(lambda fn, obs: ({"input": {"seed": rb[0]["seed"], "version": rb[0]["version"], "directed": rb[0].get("directed")}, "problems": rb[0]["problems"][:3]} if rb else None))
     if rb and not any(o.status == "refuted" for o in report.obs):
@@ -255,6 +298,10 @@ def replay(data):
     if not inp:
         print("no concrete input;", [x["id"] for x in r.get("refuted", [])])
         return 1
+    if inp.get("collision"):
+        out = collision_case(tuple(inp["collision"]))
+        print(out["problem"])
+        return 1 if out["problem"] else 0
     out = router_case((inp["seed"], inp["version"], inp.get("directed")))
     print(out["problems"][:3])
     return 1 if out["problems"] else 0
